@@ -5,8 +5,10 @@ EXTENDS Dispatch, Json, SequencesExt
 CONSTANT TraceFile
 Trace == ndJsonDeserialize(TraceFile)
 
-VARIABLES l, hs, failAt, nsave, skip
-vars == <<l, hs, failAt, nsave, skip>>
+\* hs: the handlers registered so far; allhs: all handlers of the scenario (those with when = "late" are registered in the middle
+\* of the traffic, after messages of their type have already passed: record "dreg")
+VARIABLES l, hs, allhs, failAt, nsave, skip
+vars == <<l, hs, allhs, failAt, nsave, skip>>
 
 Rej(r, what, detail) == PrintT("REJECT " \o ToJson(<<"C19", r.id \o "#" \o ToString(r.i), what, detail>>)) /\ FALSE
 
@@ -57,16 +59,18 @@ StepOk(r) ==
      /\ ((ot # "" => Len(r.saves) = 1)
            \/ Rej(r, "number of Save calls differs", [saves |-> Len(r.saves)]))
 
-Init == l = 1 /\ hs = <<>> /\ failAt = 0 /\ nsave = 0 /\ skip = FALSE
+Init == l = 1 /\ hs = <<>> /\ allhs = <<>> /\ failAt = 0 /\ nsave = 0 /\ skip = FALSE
 Next ==
   /\ l <= Len(Trace)
   /\ l' = l + 1
   /\ LET r == Trace[l]
-     IN IF r.k = "dinit" THEN hs' = r.handlers /\ failAt' = r.saveFailAt /\ nsave' = 0 /\ skip' = FALSE
-        ELSE IF skip THEN UNCHANGED <<hs, failAt, nsave, skip>>
+     IN IF r.k = "dinit" THEN /\ hs' = SelectSeq(r.handlers, LAMBDA h : h.when # "late") /\ allhs' = r.handlers
+                                 /\ failAt' = r.saveFailAt /\ nsave' = 0 /\ skip' = FALSE
+        ELSE IF r.k = "dreg" THEN hs' = allhs /\ UNCHANGED <<allhs, failAt, nsave, skip>>
+        ELSE IF skip THEN UNCHANGED <<hs, allhs, failAt, nsave, skip>>
         ELSE /\ skip' = ~(StepOk(r) = TRUE)
              /\ nsave' = nsave + Len(r.saves)
-             /\ UNCHANGED <<hs, failAt>>
+             /\ UNCHANGED <<hs, allhs, failAt>>
 Spec == Init /\ [][Next]_vars
 TraceAccepted == TLCGet("stats").diameter = Len(Trace) + 1
 =============================================================================
